@@ -19,7 +19,7 @@ VARIABLES pc, inp, p2s, s2p, perms, result,
           kS, kP     \* class keys of every atom modulo LS / LP: computed once (TLC does not cache LET definitions)
 pvars == <<pc, inp, p2s, s2p, perms, result, kS, kP>>
 
-(* inp = [D, S, Pn, Pd, atoms] *)
+(* inp = [D, S, Pn, Pd, atoms, reorder]   (reorder = <<>> or the requested primitive positions, over D) *)
 NA(x) == Len(x.atoms)
 KeyS(x, u) == ClassKey(x.S, x.D, u)
 KeyP(x, u) == ClassKey(x.Pn, x.D, VScale(x.Pd, u))
@@ -75,8 +75,17 @@ Trim ==
                 (* len(cell) == rint(len(trimmed) * det(S)/det(P)) : exact rational comparison; *)
                 (* rint is modelled for the exact case and for the clearly-off case only       *)
                 countOK == NA(inp) * Det(inp.Pn) = Len(kept) * Det(inp.S) * inp.Pd * inp.Pd * inp.Pd
-            IN /\ p2s' = kept
-               /\ pc' = IF symbolsOK /\ countOK THEN "map" ELSE "error"
+                (* positions_to_reorder: the caller asks for the primitive atoms in the order of  *)
+                (* the given positions (each must coincide with exactly one kept atom modulo LP)  *)
+                reorderOK == inp.reorder = <<>> \/
+                               (/\ Len(inp.reorder) = Len(kept)
+                                /\ \A i \in 1..Len(inp.reorder) :
+                                      Cardinality({k \in 1..Len(kept) : keys[kept[k]] = KeyP(inp, inp.reorder[i])}) = 1)
+                ordered == IF inp.reorder = <<>> \/ ~reorderOK THEN kept
+                           ELSE [i \in 1..Len(inp.reorder) |->
+                                   kept[CHOOSE k \in 1..Len(kept) : keys[kept[k]] = KeyP(inp, inp.reorder[i])]]
+            IN /\ p2s' = ordered
+               /\ pc' = IF symbolsOK /\ countOK /\ reorderOK THEN "map" ELSE "error"
   /\ UNCHANGED <<inp, s2p, perms, result, kS, kP>>
 
 MapIndices ==
